@@ -1,10 +1,12 @@
 use crate::report::Report;
 use crate::Ctx;
 
+pub mod c09;
 pub mod c20;
 
 pub fn run(prop: &str, ctx: &mut Ctx) -> Option<Report> {
     match prop {
+        "C09" => Some(c09::run(ctx)),
         "C20" => Some(c20::run(ctx)),
         _ => None,
     }
